@@ -785,12 +785,19 @@ def job_seqmask(res, L_, spec):
         return real(matrix, width, height, proposed_mask if proposed_mask is not None else 0)
     enc.find_and_apply_best_mask = rec
     try:
-        for kw, want in ((dict(version=1), None), (dict(symbol_count=3), None), (dict(version=2, mask=5), 5), (dict(symbol_count=4, mask=0), 0)):
+        long = 'STRUCTURED APPEND 0123456789 ' * 3
+        cases = ((long, dict(version=1), None, 2), (long, dict(symbol_count=3), None, 2), (long, dict(version=2, mask=5), 5, 2), (long, dict(symbol_count=4, mask=0), 0, 2),
+                 # content that fits one symbol (shortcut of encode_sequence) and a one-symbol sequence
+                 ('HELLO WORLD', dict(version=1, mask=3), 3, 1), ('HELLO WORLD', dict(version=2, mask=6), 6, 1), ('HELLO WORLD', dict(version=1), None, 1),
+                 ('HELLO WORLD', dict(symbol_count=1, mask=7), 7, 1), ('12345', dict(version=3, mask=4, error='H'), 4, 1))
+        for content, kw, want, least in cases:
             del seen[:]
-            codes = list(enc.encode_sequence('STRUCTURED APPEND 0123456789 ' * 3, error='L', **kw))
-            ok = len(codes) > 1 and len(seen) == len(codes) and all(x == want for x in seen)
-            res.concrete('every-symbol-of-a-sequence-gets-its-own-mask-selection', ok,
-                         lambda kw=kw: res.violation('sequence-mask', f'encode_sequence({kw}): masks proposed to the selection: {seen}', {'fn': 'seqmask', 'kw': kw}))
+            kw = dict({'error': 'L'}, **kw)
+            codes = list(enc.encode_sequence(content, **kw))
+            ok = len(codes) >= least and len(seen) == len(codes) and all(x == want for x in seen)
+            res.concrete('every-symbol-of-a-sequence-gets-the-requested-mask-or-its-own-selection', ok,
+                         lambda kw=kw, content=content: res.violation('sequence-mask', f'encode_sequence({content[:20]!r}.., {kw}): masks proposed to the selection: {seen}',
+                                                                      {'fn': 'seqmask', 'kw': kw, 'content': content}))
     finally:
         enc.find_and_apply_best_mask = real
     res.sample({'case': 'sequence masks', 'note': 'concrete content (glue)'})
@@ -969,11 +976,12 @@ def replay(viol):
             return real(matrix, width, height, proposed_mask)
         enc.find_and_apply_best_mask = rec
         try:
-            codes = list(enc.encode_sequence('STRUCTURED APPEND 0123456789 ' * 3, error='L', **inp['kw']))
+            kw = dict({'error': 'L'}, **inp['kw'])
+            codes = list(enc.encode_sequence(inp.get('content', 'STRUCTURED APPEND 0123456789 ' * 3), **kw))
         finally:
             enc.find_and_apply_best_mask = real
         want = inp['kw'].get('mask')
-        return not all(x == want for x in seen), f'masks proposed: {seen}'
+        return not (len(seen) == len(codes) and all(x == want for x in seen)), f'{len(codes)} symbol(s), masks proposed: {seen}, requested: {want}'
     if fn == 'e2e':
         import segno
         from ref import decoder
